@@ -201,7 +201,7 @@ func (n *Client) Run(ctx context.Context) {
 func (n *Client) processMetrics(now float64, metrics *gostatsd.MetricMap, cb func(*timeSeries)) {
 	fl := flush{
 		ts: &timeSeries{
-			Metrics: make([]interface{}, 0, n.metricsPerBatch),
+			Metrics: make([]interface{}, 0, batchCapacity(n.metricsPerBatch)),
 		},
 		timestamp:        now,
 		flushIntervalSec: n.flushInterval.Seconds(),
